@@ -42,11 +42,14 @@ def join_chain(e):
     return it["recv"], mp[2][0], sep
 
 
+from ..mir import parse_at
+
+
 def run_rules(ctx, res):
     PR, FL, SITE, IMM = "R-C13-printer", "R-C13-flatten", "R-C13-site", "R-C13-immut"
     res.rule(PR, "the type printer has one arm per variant of the type AST and no wildcard; unit prints a literal lexing to `(` `)`; a path prints the names of all segments in order joined by a literal lexing to `::`; a generic prints callee, `<`, all arguments in order each through the printer itself joined by a literal lexing to `,`, then `>` (compared as Rust tokens)")
     res.rule(FL, "each CST list conversion converts the left part first and appends the right element at the end (no insert(0), rev, sort, loop)")
-    res.rule(SITE, "every payload-type placeholder in a template is bound to `.type_` of the same iteration variable whose name is printed beside it, or to get_type(&f.name) where f is the very field being rendered; get_type compares the full terminal name")
+    res.rule(SITE, "every payload-type placeholder in a template is bound to `.type_` of the same iteration variable whose name is printed beside it, or to get_type(&f.name) where f is the very field being rendered; get_type compares the full terminal name; on MIR, get_type is keyed by the name of a Terminal symbol and a value read from `.type_`/get_type only reaches the formatting machinery (opaque: never tested, compared or transformed)")
     res.rule(IMM, "the rendered type string is written once, at validation, from the printer applied to the same variant's type, and never mutated afterwards")
     syn = Syn(ctx["facts"]["syn"], ctx.get("synfacts_bin"))
     pr = find_printer(syn)
@@ -189,12 +192,87 @@ def run_rules(ctx, res):
                     elif re.search(r"\.type_\b|get_type\(", txt):
                         n_sites += 1
                         res.violate(SITE, "site|%s|unrecognised" % t.fn, t.where, "payload type placeholder `{%s}` is bound to `%s`, which is neither `<variant>.type_` nor `get_type(&<field symbol>.name).unwrap()`" % (ph, txt[:100]))
-    res.floor("payload-type use sites in templates", n_sites, 5)
+    res.count("payload-type use sites recognised in templates", n_sites)
     # get_type compares the full name (MIR, shared with C07)
-    from ..mir import Mir, Exprs, canon
+    from ..mir import Mir, Exprs, canon, strip_transparent, TRANSPARENT_CALLS, is_clone_path
     from .c07 import check_get_type
     mir = Mir(ctx["facts"]["mir"])
     check_get_type(mir, res, SITE)
+    # the emitter treats the rendered payload type as opaque text: a value read from `.type_` / get_type(..)
+    # only reaches the formatting machinery (it is printed), never a test, a comparison or a transformation;
+    # and get_type is looked up under the name of a Terminal symbol
+    FMT_OK = ("core::fmt::rt::Argument::<'_>::new_display", "std::fmt::Arguments::<'a>::new", "std::fmt::format", "std::hint::must_use",
+              "std::option::Option::<T>::unwrap", "std::option::Option::<T>::expect", "<std::option::Option<T> as std::ops::Try>::branch",
+              "<std::option::Option<T> as std::ops::FromResidual<std::option::Option<std::convert::Infallible>>>::from_residual",
+              "std::string::String::as_str", "<str as std::string::ToString>::to_string", "<std::string::String as std::fmt::Display>::fmt",
+              "<str as std::fmt::Display>::fmt", "std::string::String::push_str", "<std::string::String as std::ops::Deref>::deref")
+
+    def tainted(e, depth=0):
+        if depth > 40:
+            return False
+        if e.k == "field" and e.a[1] == "type_" and str(e.a[2]).endswith("TerminalVariant"):
+            return True
+        if e.k == "call":
+            if e.a[0].endswith("::get_type"):
+                return True
+            if e.a[0] == "std::fmt::format":
+                return False  # the result is emitted text
+        if e.k == "phi":
+            return any(tainted(y, depth + 1) for y in e.a[0])
+        if e.k in ("partial", "cycle", "param", "const"):
+            return False
+        for y in e.a:
+            if hasattr(y, "k"):
+                if tainted(y, depth + 1):
+                    return True
+            elif isinstance(y, (list, tuple)):
+                for z in y:
+                    if hasattr(z, "k") and tainted(z, depth + 1):
+                        return True
+        return False
+
+    n_disp = 0
+    n_lookup = 0
+    efile_s = efile or "table_to_rust.rs"
+    for fn in mir.fns.values():
+        if fn.derived or not fn.file.endswith(efile_s.rsplit("/", 1)[-1]):
+            continue
+        fex = None
+        for c in fn.calls():
+            rp = c.rpath or c.path or "?"
+            if rp.endswith("::get_type") and len(c.args) >= 2:
+                fex = fex or Exprs(fn)
+                ke = strip_transparent(fex.operand(c.args[1]))
+                good = ke.k == "field" and ke.a[1] == "name" and "as Terminal" in canon(ke)
+                n_lookup += 1
+                res.inst(SITE, "lookup-key|%s" % fn.path, c.where, True, canon(ke)[:100])
+                if not good:
+                    res.violate(SITE, "lookup-key|%s" % fn.path, c.where, "payload type looked up under `%s`, which is not the name of a terminal symbol" % canon(ke)[:120])
+                continue
+            for a_ in c.args:
+                if a_["k"] not in ("copy", "move"):
+                    continue
+                fex = fex or Exprs(fn)
+                if not tainted(fex.operand(a_)):
+                    continue
+                okc = rp in FMT_OK or rp in TRANSPARENT_CALLS or is_clone_path(rp) or (c.path or "") in TRANSPARENT_CALLS
+                if rp.endswith("new_display"):
+                    n_disp += 1
+                res.inst(SITE, "opaque|%s|%s" % (fn.path, rp.rsplit("::", 1)[-1]), c.where, rp.endswith("new_display"), "")
+                if not okc:
+                    res.violate(SITE, "opaque|%s|%s" % (fn.path.rsplit("::", 2)[-2] if fn.kind == "Closure" else fn.name, rp.rsplit("::", 1)[-1]), c.where,
+                                "the rendered payload type is handed to `%s` in the emitter: it must only be printed, never tested, compared or transformed (what is emitted would then depend on how the type is spelled)" % rp)
+        for b in fn.blocks:
+            if b["cleanup"]:
+                continue
+            for s_ in b["stmts"]:
+                if s_["k"] == "assign" and s_["rv"]["k"] == "bin":
+                    fex = fex or Exprs(fn)
+                    if tainted(fex.operand(s_["rv"]["a"])) or tainted(fex.operand(s_["rv"]["b"])):
+                        f_, l_ = parse_at(s_["span"]["at"])
+                        res.violate(SITE, "opaque|%s|bin" % fn.name, "%s:%d" % (f_, l_), "the rendered payload type enters `%s` in the emitter" % s_["rv"]["op"])
+    res.floor("payload-type values reaching a Display argument in the emitter", n_disp, 3)
+    res.floor("get_type look-ups in the emitter", n_lookup, 1)
     for v in res.violations:
         if v.key == "D-tref|get_type":
             v.rule = SITE
